@@ -13,7 +13,7 @@ type Case struct {
 }
 
 var keyPool = []string{"a", "b", "c", "x", "y"}
-var oddKeys = []string{"", "a b", "k\"q", "é", "null", "0", "$", "a.b", "[0]"}
+var oddKeys = []string{"", "a b", "k\"q", "é", "null", "0", "$", "a.b", "[0]", "it's", "\"", "'q' \"d\""}
 
 func randLeaf(r *lib.Rng) *T {
 	switch r.Intn(14) {
@@ -22,7 +22,7 @@ func randLeaf(r *lib.Rng) *T {
 	case 1:
 		return tBool(r.Bool())
 	case 2:
-		return tStr(lib.Pick(r, []string{"", "a", "x y", "1", "q\"\\", "é☃"}))
+		return tStr(lib.Pick(r, []string{"", "a", "x y", "1", "q\"\\", "é☃", "a\"b", "it's", "say \"hi\" now", "\"", "'"}))
 	case 3:
 		return tFlt(lib.Pick(r, []string{"1.5", "-2.25e1", "0.25", "1e-2", "3.5E0"}))
 	case 4:
@@ -528,6 +528,32 @@ func boundaryCases(emit func(*Case)) {
 		for _, ts := range targets {
 			emit(&Case{Doc: doc, Targets: ts, Stream: "boundary"})
 			emit(&Case{Doc: doc, Targets: ts, Stream: "boundary", WSeed: 77})
+		}
+	}
+}
+
+// quoteCases: strings and member names that hold the OTHER quote character (a double quote inside
+// a SEN single-quoted string, a single quote inside a double-quoted one), every place a string can
+// stand in, under targets that report it as a value, inside a collected container and as a path.
+func quoteCases(emit func(*Case)) {
+	strs := []string{"a\"b", "\"", "\"\"", "x\"y\"z", "say \"hi\"", "it's", "'", "a'b\"c", "\"'", "plain"}
+	w := Frag{K: 'w'}
+	d := Frag{K: 'd'}
+	for _, s := range strs {
+		for _, s2 := range []string{"k", s} {
+			docs := []*T{
+				tStr(s),
+				tArr(tStr(s)),
+				tArr(tStr(s), tInt(1), tStr(s2)),
+				{K: 'o', Keys: []string{s}, Kids: []*T{tStr(s2)}},
+				{K: 'o', Keys: []string{"a", s}, Kids: []*T{tStr(s), tArr(tStr(s2), tInt(2))}},
+				tArr(&T{K: 'o', Keys: []string{s}, Kids: []*T{tArr(tStr(s))}}, tStr(s2)),
+			}
+			for _, doc := range docs {
+				for _, ts := range [][]Target{{{}}, {{w}}, {{w, w}}, {{d, w}}, {{Frag{K: 'c', Key: s}}}, {{d, Frag{K: 'c', Key: s}}}, {{Frag{K: 'n', N: 0}}, {Frag{K: 'c', Key: s}, w}}} {
+					emit(&Case{Doc: doc, Targets: ts, Stream: "quotes"})
+				}
+			}
 		}
 	}
 }
